@@ -320,12 +320,49 @@ def differential(a, b, d1, d2, fused, rec, wit):
     return False
 
 
-def check_pair(a, b, predkind, rng, rec):
+ID_BASES = ["update", "s", "primary_1", "main_0"]
+
+
+def represent(dag, seed):
+    """Another presentation of the same method: statement ids re-issued from an adversarial pool (base, base_0,
+    base_1, base_0_0, ... -- the numbered variants a unique-id generator would produce; dependencies may point
+    from lower to higher numbers) and the statements stored in shuffled order."""
+    from dagrt.language import DAGCode, ExecutionPhase
+    rng = random.Random(seed)
+    phases = {}
+    for pn, ph in dag.phases.items():
+        stmts = sorted(ph.statements, key=lambda s: s.id)
+        bases = rng.sample(ID_BASES, 2)
+        pool = [b + suf for b in bases for suf in ("", "_0", "_1", "_2", "_0_0", "_3")]
+        rng.shuffle(pool)
+        idmap = {}
+        for s in stmts:
+            idmap[s.id] = pool.pop() if pool and rng.random() < 0.85 else "keep_" + s.id
+        new = [s.copy(id=idmap[s.id], depends_on=frozenset(idmap[d] for d in s.depends_on)) for s in stmts]
+        rng.shuffle(new)
+        phases[pn] = ExecutionPhase(pn, ph.next_phase, new)
+    return DAGCode(phases, dag.initial_phase)
+
+
+def check_pair(a, b, predkind, rng, rec, variant=None):
     from dagrt.transform import fuse_two_dags
-    wit = {"a": a, "b": b, "pred": predkind}
+    wit = {"a": a, "b": b, "pred": predkind, "variant": variant}
     try:
         with case_alarm(60):
             d1, d2 = prog.build(a), prog.build(b)
+            if variant and variant.startswith("ids:"):
+                d1, d2 = represent(d1, variant + "1"), represent(d2, variant + "2")
+                rec.count("pairs_with_reissued_ids_and_shuffled_storage")
+            elif variant and variant.startswith("chain:"):
+                # the second operand is itself a fusion result (ids already uniquified once, stored in the
+                # order the first fusion produced or reversed)
+                from dagrt.language import DAGCode, ExecutionPhase
+                inner = fuse_two_dags(d2, d2)
+                if variant.endswith("r"):
+                    inner = DAGCode({pn: ExecutionPhase(pn, ph.next_phase, list(ph.statements)[::-1])
+                                     for pn, ph in inner.phases.items()}, inner.initial_phase)
+                d2 = inner
+                rec.count("pairs_with_fusion_result_as_operand")
             names = set()
             for ph in d2.phases.values():
                 for s in ph.statements:
@@ -343,7 +380,7 @@ def check_pair(a, b, predkind, rng, rec):
             rec.count("predicate_" + predkind)
             if structural(d1, d2, fused, pred_o, rec, wit):
                 return
-            if predkind in ("none", "nonpersistent"):
+            if predkind in ("none", "nonpersistent") and not (variant or "").startswith("chain:"):
                 differential(a, b, d1, d2, fused, rec, wit)
     except CaseTimeout:
         rec.timeout()
@@ -390,6 +427,10 @@ def run_shard(shard, rec):
         a, b = gen_pair(rng)
         predkind = PREDS[i % 4] if i % 3 else "none"
         check_pair(a, b, predkind, rng, rec)
+        if i % 2 == 0:
+            check_pair(a, b, predkind, rng, rec, variant=f"ids:{shard['seed']}:{i}")
+        if i % 4 == 1:
+            check_pair(a, b, predkind, rng, rec, variant="chain:" + ("r" if i % 8 == 1 else "f"))
         if i % 5 == 0:
             check_disagreeing(a, b, rng, rec)
         rec.case([a, b, predkind], nontrivial=bool(shared(a, b)),
@@ -397,5 +438,6 @@ def run_shard(shard, rec):
 
 
 def replay(witness, rec):
-    check_pair(witness["a"], witness["b"], witness.get("pred", "none"), random.Random(0), rec)
+    check_pair(witness["a"], witness["b"], witness.get("pred", "none"), random.Random(0), rec,
+               variant=witness.get("variant"))
     rec.case(witness)
